@@ -232,7 +232,7 @@ func (sp *Specs) loadSpecFile(path, pkg string) error {
 				if err != nil {
 					return fail(l, "%v", err)
 				}
-				sp.Consts[name] = e
+				sp.Consts[pkg+"::"+name] = e
 			case "macro":
 				// macro name(a, b) = expr
 				i := strings.Index(rest, "(")
@@ -252,7 +252,7 @@ func (sp *Specs) loadSpecFile(path, pkg string) error {
 					return fail(l, "%v", err)
 				}
 				m.Body = e
-				sp.Macros[m.Name] = m
+				sp.Macros[pkg+"::"+m.Name] = m
 			case "func", "extern", "iface":
 				name := strings.TrimSpace(rest)
 				cur = &Contract{Kind: word, Name: name, Pkg: pkg, Loops: map[int]*LoopSpec{}, CallSpecs: map[string]*Contract{}, File: l.pos, Opts: map[string]string{}}
